@@ -363,9 +363,9 @@ func init() {
 		Assumptions: []string{"nbits 1..10 in quick, 1..16 in thorough", "float tolerance 1e-5 relative"},
 		Shards: func(tier string) []vShard {
 			var sh []vShard
-			depth := 3
+			depth := 4
 			if tier == "thorough" {
-				depth = 4
+				depth = 5
 			}
 			for _, cfg := range vC14Configs(tier) {
 				cfg := cfg
@@ -387,9 +387,21 @@ func init() {
 					vBFS(c, vC14Sys(c, cfg), d)
 				}})
 			}
+			// large instances (hundreds to thousands of vectors, k up to n)
+			for _, cfg := range []vVecCfg{{Kind: "pq", Metric: Euclidean, Dim: 4, M: 2, NBits: 3, Train: 2}, {Kind: "ivfpq", Metric: Euclidean, Dim: 4, NList: 3, M: 2, NBits: 3, Train: 2}, {Kind: "ivfpq", Metric: Cosine, Dim: 4, NList: 4, M: 2, NBits: 4, Train: 2}} {
+				cfg := cfg
+				sh = append(sh, vShard{Name: "large/" + strings.ReplaceAll(cfg.String(), " ", ","), Run: func(c *vCtx) { vKindLarge(c, cfg, vLargeSizes(tier), vC14Hook) }})
+			}
 			return sh
 		},
 		Replay: func(c *vCtx, v *vViolation) bool {
+			if i := strings.Index(v.Config, " large n="); i >= 0 {
+				var n int
+				fmt.Sscanf(v.Config[i:], " large n=%d", &n)
+				vKindLarge(c, vParseVecCfg(v.Config[:i]), []int{n}, vC14Hook)
+				_, ok := c.viol[v.Sig()]
+				return ok
+			}
 			if i := strings.Index(v.Config, " trainN="); i >= 0 {
 				vC14TrainBoundary(c, vParseVecCfg(v.Config[:i]))
 			} else {
